@@ -41,7 +41,13 @@ class SweepRecorder:
 
     def eigh_direct(self, mps, qn_mask, ltensor, rtensor, cmo, omega):
         import renormalizer.mps.gs as gs
-        ham = gs.get_ham_direct(mps, qn_mask, ltensor, rtensor, cmo, omega)
+        if isinstance(ltensor, list):
+            # StackedMpo: one environment pair and one centre operator per summand; the local matrix is the sum (what the real eigh_direct builds)
+            ham = sum(gs.get_ham_direct(mps, qn_mask, l_, r_, c_, omega) for l_, r_, c_ in zip(ltensor, rtensor, cmo))
+            nparts = (len(ltensor), len(rtensor), len(cmo))
+        else:
+            ham = gs.get_ham_direct(mps, qn_mask, ltensor, rtensor, cmo, omega)
+            nparts = None
         snap = {"tensors": [(_obj(mps[i]) if self.sym else np.asarray(mps[i].array)).copy() for i in range(len(mps))], "coeff": mps.coeff,
                 "qnidx": int(mps.qnidx), "to_right": bool(mps.to_right)}
         k = len(self.calls)
@@ -61,7 +67,7 @@ class SweepRecorder:
         else:
             cc = [np.asarray(x, dtype=object if self.sym else None).copy() for x in c]
         self.calls.append({"ham": np.asarray(ham, dtype=object if self.sym else complex), "mask": np.asarray(qn_mask).copy(), "snap": snap,
-                           "e": e if self.nroots == 1 else [float(x) for x in np.asarray(e).reshape(-1)], "c": cc})
+                           "e": e if self.nroots == 1 else [float(x) for x in np.asarray(e).reshape(-1)], "c": cc, "nparts": nparts})
         return e, c
 
 
@@ -123,7 +129,11 @@ def execute(x, Hobj, method, omega, last_idx, rec, nroots=1):
         x.optimize_config.algo = "direct"
         x.compress_config = CompressConfig(CompressCriteria.fixed, max_bonddim=10 ** 4)
         env = "R" if x.to_right else "L"
-        if omega is not None:
+        if isinstance(Hobj, list):
+            from renormalizer.mps import StackedMpo
+            Hw = StackedMpo(Hobj)
+            environ = [Environ(x, item, env) for item in Hobj]
+        elif omega is not None:
             ident = Mpo.identity(Hobj.model)
             if rec.sym:
                 ident = SH.numeric_to_symbolic_const(ident)
@@ -155,6 +165,10 @@ def clauses(rec, sched, template, Hop, va, micro, res, work, last_idx, to_right0
         if not sym:
             yield ("frames_are_orthonormal", ctag, cj(J).T.dot(J), np.eye(J.shape[1]) * abs(c["snap"]["coeff"]) ** 2, None)
         yield ("matrix_is_the_hamiltonian_projected_on_the_current_frames", ctag, c["ham"], cj(J).T.dot(Hop.dot(J)), None)
+        if not sym and nroots == 1:
+            # with the real solver: what it hands back is an eigenpair of that matrix (for a StackedMpo: of the SUM over the stacked operators)
+            hm = np.asarray(c["ham"], dtype=complex)
+            yield ("returned_vector_is_an_eigenpair_of_the_local_matrix", ctag, hm.dot(c["c"]), complex(c["e"]) * np.asarray(c["c"]), None)
         # the state in which the problem is posed: the tensors held at that moment (their own centre values)
         if nroots == 1:
             yield ("posed_in_the_state_the_previous_update_produced", ctag, dense_of(template, T, c["snap"]["coeff"]), prev_after, None)
@@ -189,11 +203,11 @@ def native_replay(t0, H, method, omega, last_idx, seed, nroots=1):
         # several roots: real data (the state-averaged update rotates with the transposed basis, gs.py / mp.py use no conjugate there: real Hamiltonians only)
         atc = S.complexify(t0, rng) if nroots == 1 else t0.copy()
         atc.canonicalise().canonicalise()       # optimize_mps hands single_sweep a canonical state with the centre at the start of the sweep
-        Hn = S.dense(H)
+        Hn = sum(S.dense(h) for h in H) if isinstance(H, list) else S.dense(H)
         Hop = Hn if omega is None else (Hn - omega * np.eye(Hn.shape[0])) @ (Hn - omega * np.eye(Hn.shape[0]))
         rec = SweepRecorder(None, real=gs.eigh_direct, nroots=nroots)
         try:
-            micro, res, work = execute(atc.copy(), H.copy(), method, omega, last_idx, rec, nroots)
+            micro, res, work = execute(atc.copy(), [h.copy() for h in H] if isinstance(H, list) else H.copy(), method, omega, last_idx, rec, nroots)
         except Exception as e:
             return True, {"raised": repr(e)}
         failed = []
@@ -236,25 +250,32 @@ def prove(run):
                 if method == "2site" and n < 2:
                     continue
                 sched0 = schedule(n, bool(t0.to_right), method)
-                combos = [(om, li, 1) for om in (None, 0.3) for li in (None, sched0[len(sched0) // 2], sched0[-1]) if not (om is not None and li is sched0[-1])]
+                combos = [(om, li, 1, False) for om in (None, 0.3) for li in (None, sched0[len(sched0) // 2], sched0[-1]) if not (om is not None and li is sched0[-1])]
+                # the Hamiltonian as a StackedMpo (terms dealt round-robin into operators that need not be Hermitian one by one): one environment per summand
+                combos += [(None, sched0[len(sched0) // 2], 1, True)]
                 if not name.endswith("-flux"):
                     # state-averaged sweeps (several roots): real Hamiltonians (the averaged-basis rotation is written without conjugates)
-                    combos += [(None, sched0[len(sched0) // 2], 2)] + ([(None, sched0[-1], 3), (0.3, None, 2)] if run.tier != "quick" else [])
-                for omega, last_idx, nroots in combos:
+                    combos += [(None, sched0[len(sched0) // 2], 2, False)] + ([(None, sched0[-1], 3, False), (0.3, None, 2, False), (None, None, 2, True)] if run.tier != "quick" else [])
+                for omega, last_idx, nroots, stacked in combos:
                     if True:
                         ncase += 1
                         vf = VarFactory()
                         a = SH.symbolic_state(t0, vf)
-                        tag = f"{method}@{name}{n}:{sname}:{'omega' if omega is not None else 'H'}:last={last_idx}" + (f":roots{nroots}" if nroots > 1 else "")
-                        case = {"model": name, "nsites": n, "start": sname, "method": method, "omega": omega, "last_opt_e_idx": last_idx, "nroots": nroots}
+                        tag = f"{method}@{name}{n}:{sname}:{'omega' if omega is not None else 'H'}:last={last_idx}" + (f":roots{nroots}" if nroots > 1 else "") + (":stacked" if stacked else "")
+                        case = {"model": name, "nsites": n, "start": sname, "method": method, "omega": omega, "last_opt_e_idx": last_idx, "nroots": nroots, "stacked": stacked}
                         fn = "gs.single_sweep"
                         vf2 = VarFactory()
                         vf2.n = 50000
                         rec = SweepRecorder(vf2, nroots=nroots)
-                        replay = native_replay(t0, H, method, omega, last_idx, [run.seed, n, 23], nroots)
+                        Hparts = [Mpo(model, terms[i::2]) for i in range(2) if terms[i::2]] if stacked else None
+                        replay = native_replay(t0, Hparts if stacked else H, method, omega, last_idx, [run.seed, n, 23], nroots)
                         with SH.kernel_stub_mode():
-                            Hs = SH.numeric_to_symbolic_const(H)
-                            Hd, va = S.dense(Hs), S.dense(a)
+                            if stacked:
+                                Hs = [SH.numeric_to_symbolic_const(h) for h in Hparts]
+                                Hd, va = sum(S.dense(h) for h in Hs), S.dense(a)
+                            else:
+                                Hs = SH.numeric_to_symbolic_const(H)
+                                Hd, va = S.dense(Hs), S.dense(a)
                             if omega is None:
                                 Hop = Hd
                             else:
@@ -275,7 +296,11 @@ def prove(run):
                                     decide_true(run, oid, fn, False, "no state was handed back for the requested site", case, fields={"method": method, "nroots": nroots}, numeric_replay=replay)
                                 else:
                                     decide(run, oid, fn, lhs, rhs, case, fields={"method": method, "nroots": nroots}, numeric_replay=replay)
-                            decide(run, f"frame:{fn}:hamiltonian[{tag}]", fn, S.dense(Hs), Hd, case)
+                            decide(run, f"frame:{fn}:hamiltonian[{tag}]", fn, sum(S.dense(h) for h in Hs) if stacked else S.dense(Hs), Hd, case)
+                            if stacked:
+                                np_ = [c["nparts"] for c in rec.calls]
+                                decide_true(run, f"pre:local_eigensolver:one_environment_pair_and_centre_operator_per_stacked_operator[{tag}]", fn,
+                                            all(x == (len(Hs),) * 3 for x in np_), f"environment / operator counts per problem {np_[:3]}, the StackedMpo has {len(Hs)} operators", case)
                         native_pass(run, f"rtc:{fn}:local_problems_with_the_real_kernels_incl_orthonormal_frames", fn, replay, (tag,), case)
     run.extra.setdefault("symx", {})["C08_sweep"] = {"sweep_cases": ncase, "local_problems": ncalls, "kernel_stubs": SH.KERNEL_STUBS, "shims": SH.SHIMS,
                                                      "local_eigensolver_stub": "gs.eigh_direct evaluates the real get_ham_direct on the sweep's arguments, records matrix / mask / tensors of "
